@@ -57,8 +57,35 @@ const noiseKinds = 7
 
 var noiseNames = []string{"Sync", "GC", "Stat", "NextOffset", "Delete", "Consume", "Backup"}
 
-func rawBlog(dir string) (*blog, error) {
-	l, err := klevdb.OpenBlocking(dir, klevdb.Options{KeyIndex: true})
+// pausingLog is the Log the blocking wrapper is put around in half of the raw cases: the real log with pause points of
+// the harness's own right after the calls a wrapper may make to learn where the log stands. WrapBlocking takes any Log,
+// so this is plain use of the API; it lets the scheduler park a goroutine between "the wrapper has read NextOffset" and
+// whatever the wrapper does with it.
+type pausingLog struct{ klevdb.Log }
+
+func (p *pausingLog) NextOffset() (int64, error) {
+	n, err := p.Log.NextOffset()
+	verifhook.Pause("inner.nextoffset.returned")
+	return n, err
+}
+
+func (p *pausingLog) Publish(msgs []klevdb.Message) (int64, error) {
+	n, err := p.Log.Publish(msgs)
+	verifhook.Pause("inner.publish.returned")
+	return n, err
+}
+
+func rawBlog(dir string, innerPauses bool) (*blog, error) {
+	var l klevdb.BlockingLog
+	var err error
+	if innerPauses {
+		var inner klevdb.Log
+		if inner, err = klevdb.Open(dir, klevdb.Options{KeyIndex: true}); err == nil {
+			l, err = klevdb.WrapBlocking(&pausingLog{inner})
+		}
+	} else {
+		l, err = klevdb.OpenBlocking(dir, klevdb.Options{KeyIndex: true})
+	}
 	if err != nil {
 		return nil, err
 	}
@@ -297,8 +324,8 @@ func (m *macroChooser) chooseAction(descs []string) int {
 	return -1
 }
 
-var waitPoints = []string{"notify.wait.fast", "notify.wait.acquired", "notify.wait.probed", "notify.wait.released", "blocking.consume.after-wait"}
-var pubPoints = []string{"blocking.publish.before-notify", "notify.set.acquired", "notify.set.stored", "notify.set.broadcast"}
+var waitPoints = []string{"notify.wait.fast", "notify.wait.acquired", "notify.wait.probed", "notify.wait.released", "blocking.consume.after-wait", "inner.nextoffset.returned"}
+var pubPoints = []string{"blocking.publish.before-notify", "notify.set.acquired", "notify.set.stored", "notify.set.broadcast", "inner.publish.returned"}
 
 // genMacroSteps: a structured random script. Tasks are numbered in the order they are started.
 func genMacroSteps(t *rapid.T, c *NotifyCase) []macroStep {
@@ -328,7 +355,7 @@ func genMacroSteps(t *rapid.T, c *NotifyCase) []macroStep {
 				add(macroStep{kind: "start-wait"})
 				// usually place it somewhere right away
 				if id := len(kinds) - 1; uni(t, 4, "place") > 0 {
-					if pt := pick(t, append(append([]string{}, waitPoints[:4]...), "park"), "wpoint"); pt == "park" {
+					if pt := pick(t, append(append([]string{}, waitPoints[:4]...), "park", "inner.nextoffset.returned"), "wpoint"); pt == "park" {
 						add(macroStep{kind: "finish", task: id})
 					} else {
 						add(macroStep{kind: "until", task: id, point: pt})
@@ -414,6 +441,8 @@ type NotifyCase struct {
 	FixedOffs bool  `json:"fixed_offsets"` // exhaustive mode: every waiter waits at NextOffset
 	// Noise: so many other calls (Sync, GC, Stat, NextOffset, Delete, Consume, Backup) may be placed anywhere in the schedule
 	Noise int `json:"noise,omitempty"`
+	// Inner: the raw wrapper is put around a Log with the harness's own pause points (pausingLog)
+	Inner bool `json:"inner_pauses,omitempty"`
 }
 
 var pausePointsC18 = map[string]bool{
@@ -421,6 +450,7 @@ var pausePointsC18 = map[string]bool{
 	"notify.set.acquired": true, "notify.set.stored": true, "notify.set.broadcast": true,
 	"notify.close.acquired": true, "notify.close.broadcast": true,
 	"blocking.publish.before-notify": true, "blocking.consume.after-wait": true,
+	"inner.nextoffset.returned": true, "inner.publish.returned": true,
 }
 
 // runNotifySchedule runs one schedule inside the current synctest bubble. It returns the choice log and
@@ -454,7 +484,7 @@ func runNotifySchedule(c *NotifyCase, ch chooser, st *Stats) (viol string, inter
 	if c.Typed {
 		l, err = typedBlog(dir)
 	} else {
-		l, err = rawBlog(dir)
+		l, err = rawBlog(dir, c.Inner)
 	}
 	if err != nil {
 		return "open: " + err.Error(), false
@@ -848,7 +878,7 @@ func hasWaiterInWindow(tasks []*nTask) bool {
 func genNotifyCase(t *rapid.T) *NotifyCase {
 	return &NotifyCase{Typed: uni(t, 4, "typed") == 3, W: 1 + uni(t, 8, "W"), P: 1 + uni(t, 3, "P"), Prefill: uni(t, 3, "prefill"), Existing: pick(t, []int{0, 0, 1, 3}, "existing"),
 		AllowKey: true, Cancel: rapid.Bool().Draw(t, "cancel"), Close: rapid.Bool().Draw(t, "close"), MaxSteps: 120,
-		Noise: pick(t, []int{0, 0, 1, 2, 3}, "noise")}
+		Noise: pick(t, []int{0, 0, 1, 2, 3}, "noise"), Inner: rapid.Bool().Draw(t, "inner")}
 }
 
 func TestC18(t *testing.T) {
@@ -898,7 +928,7 @@ func TestC18Macro(t *testing.T) {
 	}()
 	rapid.Check(t, func(rt *rapid.T) {
 		c := &NotifyCase{Typed: uni(rt, 4, "typed") == 3, W: 1 + uni(rt, 4, "W"), P: 1 + uni(rt, 3, "P"), Existing: pick(rt, []int{0, 0, 2}, "existing"),
-			Cancel: uni(rt, 3, "cancel") > 0, Close: uni(rt, 4, "close") == 3, MaxSteps: 160, FixedOffs: true}
+			Cancel: uni(rt, 3, "cancel") > 0, Close: uni(rt, 4, "close") == 3, MaxSteps: 160, FixedOffs: true, Inner: rapid.Bool().Draw(rt, "inner")}
 		rapid.SyncTest(rt, func(t *rapid.T) {
 			ch := &macroChooser{rapidChooser: rapidChooser{t: t}}
 			ch.steps = genMacroSteps(t, c)
@@ -937,6 +967,7 @@ func TestC18Exhaustive(t *testing.T) {
 		{W: 1, P: 0, FixedOffs: true, Existing: 1, Noise: 2},
 		{W: 1, P: 1, FixedOffs: true, Noise: 1},
 		{W: 1, P: 0, FixedOffs: true, Typed: true, Existing: 1, Noise: 1},
+		{W: 1, P: 1, FixedOffs: true, Inner: true},
 	}
 	if thoroughTier() {
 		configs = append(configs, NotifyCase{W: 2, P: 1, FixedOffs: true}, NotifyCase{W: 2, P: 1, FixedOffs: true, Close: true})
@@ -1074,7 +1105,7 @@ func TestC18Free(t *testing.T) {
 			if typed {
 				l, err = typedBlog(root)
 			} else {
-				l, err = rawBlog(root)
+				l, err = rawBlog(root, false)
 			}
 			if err != nil {
 				t.Fatalf("open: %v", err)
